@@ -2,7 +2,13 @@ package sim
 
 import (
 	"context"
+	"encoding/binary"
+	"encoding/json"
 	"fmt"
+	"github.com/ipfs/boxo/files"
+	"github.com/ipfs/boxo/path"
+	cid "github.com/ipfs/go-cid"
+	"io"
 	"strings"
 	"time"
 
@@ -193,6 +199,31 @@ func scenC13(k *K) {
 		k.cleanups = append(k.cleanups, func() { k.W.mu.Lock(); k.W.DiskFault = nil; k.W.mu.Unlock() })
 		k.W.Stat("save-under-disk-error")
 	}
+	// in half of the runs with concurrent writers another goroutine writes and then saves a
+	// snapshot itself, while the main save is under way: the snapshot that call gets back was
+	// made after its write, so it holds at least what the log held when the call began
+	type wsRes struct {
+		c cid.Cid
+		n int
+	}
+	var ws *Op
+	if concurrent && k.C.Chance(1, 2) {
+		tag := c.NextVal(0) + ":then-save"
+		ws = k.Go(0, "write-then-save", func() (interface{}, error) {
+			ctx, cancel := OpCtx(2 * time.Minute)
+			defer cancel()
+			if _, err := c09Write(ctx, T, tag); err != nil {
+				return nil, err
+			}
+			n := T.OpLog().Len()
+			sc, err := basestore.SaveSnapshot(ctx, T)
+			if err != nil {
+				return nil, err
+			}
+			return &wsRes{sc, n}, nil
+		})
+		k.W.Stat("second-save-behind-a-write")
+	}
 	mainSave := k.Go(0, "save-snapshot", func() (interface{}, error) {
 		ctx, cancel := OpCtx(2 * time.Minute)
 		defer cancel()
@@ -224,6 +255,19 @@ func scenC13(k *K) {
 		for _, o := range append([]*Op{cw}, cwMore...) {
 			for j := 0; j < 50 && !k.IsDone(o); j++ {
 				k.Step()
+			}
+		}
+	}
+	if ws != nil {
+		for j := 0; j < 100 && !k.IsDone(ws); j++ {
+			k.Step()
+		}
+		if !k.IsDone(ws) {
+			k.Failf("C13/save-hang", "SaveSnapshot called behind a write, while another save was under way, did not return")
+		}
+		if r, ok := ws.Val.(*wsRes); ok && ws.Err == nil {
+			if sz, err := snapshotSize(c.Peers[0].Inc, r.c); err == nil && sz < r.n {
+				k.Failf("C13/snapshot-older-than-call", "a SaveSnapshot call made when the log held %d entries (the caller had just written one) returned a snapshot of %d entries", r.n, sz)
 			}
 		}
 	}
@@ -342,4 +386,32 @@ func scenC13(k *K) {
 		}
 	}
 	c.CloseAll()
+}
+
+// snapshotSize reads the snapshot file at c back from the node's blocks and returns the entry
+// count its header states.
+func snapshotSize(inc *Inc, c cid.Cid) (int, error) {
+	nd, err := inc.API().Unixfs().Get(context.Background(), path.FromCid(c))
+	if err != nil {
+		return 0, err
+	}
+	f, ok := nd.(files.File)
+	if !ok {
+		return 0, fmt.Errorf("not a file")
+	}
+	data, err := io.ReadAll(f)
+	if err != nil || len(data) < 2 {
+		return 0, fmt.Errorf("short snapshot: %v", err)
+	}
+	hl := int(binary.BigEndian.Uint16(data[:2]))
+	if len(data) < 2+hl {
+		return 0, fmt.Errorf("short header")
+	}
+	var h struct {
+		Size int `json:"size"`
+	}
+	if err := json.Unmarshal(data[2:2+hl], &h); err != nil {
+		return 0, err
+	}
+	return h.Size, nil
 }
